@@ -53,10 +53,23 @@ pub fn pattern_table(p: &PatternNode) -> Vec<Value> {
   out
 }
 
-pub fn slim_table(p: &proj::Projection) -> Vec<Value> {
+/// `src` = the text the byte offsets of the projection refer to.  `t` is the text of leaves and of named nodes without
+/// named children (any length) and, for the other nodes, their whole text when it is short; `tk` says whether `t` is
+/// the node's whole text (a pattern token is compared with the whole text of whatever candidate it stands against).
+pub fn slim_table(p: &proj::Projection, src: &str) -> Vec<Value> {
   p.nodes
     .iter()
-    .map(|n| json!({"kid": n.kid, "nm": n.nm, "cm": n.cm, "t": n.t, "p": n.p, "ch": n.ch, "s": n.s, "e": n.e}))
+    .map(|n| {
+      let own = n.ch.iter().all(|c| !p.nodes[c - 1].nm);
+      let (t, tk) = if own {
+        (n.t.clone(), true)
+      } else if n.e - n.s <= 160 && src.is_char_boundary(n.s) && src.is_char_boundary(n.e) {
+        (src[n.s..n.e].to_string(), true)
+      } else {
+        (String::new(), false)
+      };
+      json!({"kid": n.kid, "nm": n.nm, "cm": n.cm, "t": t, "tk": tk, "p": n.p, "ch": n.ch, "s": n.s, "e": n.e})
+    })
     .collect()
 }
 
@@ -227,7 +240,7 @@ pub fn match_record_sel(
       let no = json!({"ok": false, "panic": false, "single": {}, "multi": {}, "len": -1});
       let mut rec = json!({
         "id": id, "lang": util::lang_name(lang), "pattern": pattern_text, "cand": cand.text().chars().take(300).collect::<String>(),
-        "PT": rt.clone(), "RT": rt, "nopat": true, "T": slim_table(&p),
+        "PT": rt.clone(), "RT": rt, "nopat": true, "T": slim_table(&p, cand.root().get_text()),
         "outs": LEVELS.iter().map(|lv| (lv.to_string(), no.clone())).collect::<Map<String, Value>>(),
       });
       if let Value::Object(m) = extra {
@@ -247,7 +260,7 @@ pub fn match_record_sel(
   let mut rec = json!({
     "id": id, "lang": util::lang_name(lang), "pattern": pattern_text,
     "cand": cand.text().chars().take(300).collect::<String>(),
-    "PT": pt, "RT": rt.unwrap_or_default(), "nopat": false, "T": slim_table(&p), "outs": outs,
+    "PT": pt, "RT": rt.unwrap_or_default(), "nopat": false, "T": slim_table(&p, cand.root().get_text()), "outs": outs,
   });
   if let Value::Object(m) = extra {
     for (k, v) in m {
